@@ -1050,7 +1050,9 @@ class Oracle(object):
                 continue
             idle0 = (not s0['ingest'] and not s0['occ'] and not s0['idle'] and not s0['queue']
                      and s0['hot'] == sc['hot']['capacity'] and s0['cold'] == sc['cold']['capacity']
-                     and s0['tuse'] == 0 and s0['held'] == 0 and s0['prov'] == 0 and s0['inflight'] == 0)
+                     and s0['tuse'] == 0 and s0['held'] == 0 and s0['inflight'] == 0)
+            # (structural idleness only: topsim's own pending-ingest counter is not consulted - a leaked count on an
+            # otherwise idle system is exactly what must not postpone the observation)
             firstdue = all(not (v.obs[p['name']]['est'] <= t0 and s0['status'][p['name']] == 'WAITING')
                            for p in sc['obs'][:i])
             fits = (w['demand'] <= sc['arrays'] and w['ingest'] <= min(sc['max_ingest'], self.nM)
